@@ -240,7 +240,175 @@ func c23MultiCases() []c23Multi {
 	return out
 }
 
+// ---- responder with ONE worker: request A paused by the request hook, request B
+// running but held at a stalled send under a one-block allowance; then a
+// sequence of resumes / cancels / pauses, each observed at quiescence
+
+type c23RspMulti struct {
+	RspMulti bool     `json:"responder_multi"`
+	Evs      []string `json:"events"`
+}
+
+func c23RspMultiJudge(cs c23RspMulti) *core.Violation {
+	var diag []string
+	var stats, panicked string
+	left := map[string]string{}
+	var notDone []string
+	sh := harness.Shape{Name: "chain3", Blocks: []harness.BlockSpec{{Edges: []harness.Edge{{To: 1}}}, {Edges: []harness.Edge{{To: 2}}}, {}}}
+	s := vsched.Run(vsched.Config{Fast: true}, func() {
+		f := harness.NewFixture(true)
+		rs := harness.NewStore()
+		dA, dB := harness.Build(sh, "c23-rA"), harness.Build(sh, "c23-rB")
+		one := 0
+		for _, d := range []*harness.DAG{dA, dB} {
+			for i, l := range d.Links {
+				rs.Put(l, d.Data[i])
+				one = max(one, len(d.Data[i]))
+			}
+		}
+		r := f.AddNode(peer.ID("R"), rs, gsimpl.MaxInProgressIncomingRequests(1), gsimpl.MaxMemoryPerPeerResponder(uint64(one)))
+		p1 := f.AddScript(peer.ID("P1"))
+		gsr := r.GS.(*gsimpl.GraphSync)
+		idA, idB := harness.MkID(31), harness.MkID(32)
+		held := true
+		f.Net.SendFault = func(from, to peer.ID, k int, m gsmsg.GraphSyncMessage) harness.FaultAction {
+			if from == r.ID && held && len(m.Blocks()) > 0 {
+				return harness.SendHold
+			}
+			return harness.SendOK
+		}
+		r.GS.RegisterIncomingRequestHook(func(p peer.ID, rq graphsync.RequestData, ha graphsync.IncomingRequestHookActions) {
+			ha.ValidateRequest()
+			if rq.ID() == idA {
+				ha.PauseResponse()
+			}
+		})
+		cancelled := map[graphsync.RequestID]bool{}
+		observe := func() {
+			for rid, ds := range gsr.PeerState(p1.ID).IncomingState.Diagnostics() {
+				diag = append(diag, fmt.Sprintf("%s: %s", harness.ShortID(rid), strings.Join(ds, "; ")))
+			}
+		}
+		step := func() {
+			vsched.Quiesce()
+			for f.Net.Node(r.ID).Pending(p1.ID) > 0 || f.Net.Node(p1.ID).Pending(r.ID) > 0 {
+				f.Net.Node(r.ID).DeliverNext(p1.ID)
+				f.Net.Node(p1.ID).DeliverNext(r.ID)
+				vsched.Quiesce()
+			}
+			observe()
+		}
+		sel := harness.RecAll(10)
+		p1.Say(r.ID, harness.ReqMsg(gsmsg.NewRequest(idA, dA.Root.(cidlink.Link).Cid, sel, 1)))
+		step()
+		p1.Say(r.ID, harness.ReqMsg(gsmsg.NewRequest(idB, dB.Root.(cidlink.Link).Cid, sel, 1)))
+		step()
+		for _, e := range cs.Evs {
+			switch e {
+			case "unpauseA":
+				_ = r.GS.Unpause(context.Background(), idA)
+			case "unpauseA-ext":
+				_ = r.GS.Unpause(context.Background(), idA, graphsync.ExtensionData{Name: "x/u", Data: nil})
+			case "cancelA":
+				cancelled[idA] = true
+				p1.Say(r.ID, harness.ReqMsg(gsmsg.NewCancelRequest(idA)))
+			case "r-cancelA":
+				cancelled[idA] = true
+				_ = r.GS.Cancel(context.Background(), idA)
+			case "pauseB":
+				_ = r.GS.Pause(context.Background(), idB)
+			case "cancelB":
+				cancelled[idB] = true
+				p1.Say(r.ID, harness.ReqMsg(gsmsg.NewCancelRequest(idB)))
+			case "release":
+				held = false
+				f.Net.ReleaseHeld()
+			}
+			step()
+		}
+		held = false
+		f.Net.ReleaseHeld()
+		step()
+		for round := 0; round < 4; round++ {
+			for rid, st := range gsr.PeerState(p1.ID).IncomingState.RequestStates {
+				if st == graphsync.Paused {
+					_ = r.GS.Unpause(context.Background(), rid)
+				}
+			}
+			step()
+		}
+		for _, id := range []graphsync.RequestID{idA, idB} {
+			if !cancelled[id] && len(r.Rec.Completed[id]) == 0 && r.Rec.NetErr[id] == 0 {
+				notDone = append(notDone, harness.ShortID(id))
+			}
+		}
+		for rid, st := range gsr.PeerState(p1.ID).IncomingState.RequestStates {
+			left[harness.ShortID(rid)] = st.String()
+		}
+		st := r.GS.Stats()
+		stats = fmt.Sprintf("active=%d pending=%d", st.IncomingRequests.Active, st.IncomingRequests.Pending)
+		f.Cancel()
+	})
+	if s.Panic != nil {
+		panicked = fmt.Sprint(s.Panic)
+	}
+	v := func(sig, what string) *core.Violation {
+		return &core.Violation{Signature: sig + "/responder", What: fmt.Sprintf("one incoming worker, A paused by the request hook, B running behind a stalled send, then %v: %s", cs.Evs, what), Replay: cs}
+	}
+	switch {
+	case panicked != "":
+		return v("panic", panicked)
+	case len(diag) > 0:
+		return v("state-disagrees-with-queue-at-quiescence", fmt.Sprintf("diagnostics at a quiescent point: %v", diag[:min(len(diag), 3)]))
+	case len(notDone) > 0:
+		return v("request-never-completes", fmt.Sprintf("%v (stats %s, left %v)", notDone, stats, left))
+	case len(left) == 0 && stats != "active=0 pending=0":
+		return v("queue-not-empty-after-all-requests-ended", "stats "+stats)
+	case len(left) > 0:
+		return v("request-still-tracked-after-it-ended", fmt.Sprintf("%v", left))
+	}
+	return nil
+}
+
+func c23RspMultiCases() []c23RspMulti {
+	alpha := []string{"unpauseA", "unpauseA-ext", "cancelA", "r-cancelA", "pauseB", "cancelB", "release"}
+	var out []c23RspMulti
+	var rec func(cur []string)
+	rec = func(cur []string) {
+		if len(cur) > 0 {
+			out = append(out, c23RspMulti{RspMulti: true, Evs: append([]string{}, cur...)})
+		}
+		if len(cur) == 3 {
+			return
+		}
+		for _, a := range alpha {
+			dup := false
+			for _, x := range cur {
+				dup = dup || x == a
+			}
+			if !dup {
+				rec(append(cur, a))
+			}
+		}
+	}
+	rec(nil)
+	return out
+}
+
 func runC23(c *core.Ctx) {
+	for i, cs := range c23RspMultiCases() {
+		if !c.Mine(int64(i)) {
+			continue
+		}
+		c.Res.Evaluations++
+		c.Res.Traces++
+		c.Res.States += int64(len(cs.Evs) + 3)
+		c.Res.Transitions += int64(len(cs.Evs) + 3)
+		c.Class("responder-multi")
+		if v := c23RspMultiJudge(cs); v != nil {
+			c.Violate(v.Signature, v.What, v.Replay)
+		}
+	}
 	for i, cs := range c23MultiCases() {
 		if !c.Mine(int64(i)) {
 			continue
@@ -374,6 +542,13 @@ func init() {
 				World  string          `json:"world"`
 				Case   json.RawMessage `json:"case"`
 				Prefix []int           `json:"prefix"`
+			}
+			var rm c23RspMulti
+			if json.Unmarshal(raw, &rm) == nil && rm.RspMulti {
+				if v := c23RspMultiJudge(rm); v != nil {
+					return v.Signature + ": " + v.What
+				}
+				return "ok"
 			}
 			var mc c23Multi
 			if json.Unmarshal(raw, &mc) == nil && mc.Multi {
